@@ -322,7 +322,7 @@ func mutateDef(def string) []string {
 
 // C19: ROS 1 message definitions parse to the right tree, and always terminate.
 func C19(r *chk.Run) {
-	r.Rule("(a) every type graph over a top-level type plus up to D dependency types drawn from {pkga/P, pkgb/P, pkgb/Q, std_msgs/Header}, up to F fields per type, field type in {int32, string, each dependency referred to exactly-qualified / unqualified-same-package / as Header}, array suffix none/[]/[3] on the first field, 6 decorations (plain, trailing comment, tabs and blanks, constant line, blank+comment lines, comment glued to the field name), INCLUDING cyclic graphs; acyclic graphs must parse to exactly the generating tree; (b) every string of length <= L over {a [ ] / space newline = # 1}; (d) deterministic deep and wide graphs: each of the 16 primitive types x array suffix x 6 decorations; chains Top->L1->...->L5 of depth 1..5 across two packages with every admissible reference form and array suffix per level, a primitive sibling before or after the reference, 3 leaf kinds; diamonds (two paths to one shared type, dependency definitions out of reference order) - each must parse to exactly the generating tree; (c) every single-token mutation (bracket deleted/duplicated/swapped, separator shortened/removed/duplicated, MSG: prefix dropped) of the valid definitions of (a) at small scope; every input runs in an isolated worker (ulimit -v 8 GiB, 64 MiB stack cap, 30 s per input): outcome must be ok or error; distinct = inputs run")
+	r.Rule("(a) every type graph over a top-level type plus up to D dependency types drawn from {pkga/P, pkgb/P, pkgb/Q, std_msgs/Header}, up to F fields per type, field type in {int32, string, each dependency referred to exactly-qualified / unqualified-same-package / as Header}, array suffix none/[]/[3] on the first field, 6 decorations (plain, trailing comment, tabs and blanks, constant line, blank+comment lines, comment glued to the field name), INCLUDING cyclic graphs; acyclic graphs must parse to exactly the generating tree; (b) every string of length <= L over {a [ ] / space newline = # 1}; (d) deterministic deep and wide graphs: each of the 16 primitive types x array suffix x 6 decorations; chains Top->L1->...->L5 of depth 1..5 across two packages with every admissible reference form and array suffix per level, a primitive sibling before or after the reference, 3 leaf kinds; diamonds (two paths to one shared type, dependency definitions out of reference order); homonyms (pkga/P and pkgb/P with different bodies, each referred to by its bare name from inside its own package) - each must parse to exactly the generating tree; (c) every single-token mutation (bracket deleted/duplicated/swapped, separator shortened/removed/duplicated, MSG: prefix dropped) of the valid definitions of (a) at small scope; every input runs in an isolated worker (ulimit -v 8 GiB, 64 MiB stack cap, 30 s per input): outcome must be ok or error; distinct = inputs run")
 	r.Assume("an unqualified reference is generated only where the resolution rule makes it valid (same package as the enclosing type, or Header for std_msgs/Header)")
 	quickSets := [][]int{{}, {1}, {2}, {3}, {4}, {1, 2}, {2, 3}, {1, 4}, {3, 4}}
 	fullSets := append(append([][]int{}, quickSets...), []int{1, 2, 3}, []int{2, 3, 4}, []int{1, 3, 4})
